@@ -191,6 +191,10 @@ def oracle(c, obs, tol):
         if c["eq"] == "external":
             # the leaky memory is not observable per step; continue with the recomputed one
             pass
+    if c["eq"] == "external" and not np.allclose(obs["s"], s, rtol=tol, atol=tol):
+        # ... but it is observable at the end (the `internal_state` parameter)
+        return {"step": len(obs["rows"]), "expected": s.tolist(), "observed": np.asarray(obs["s"]).tolist(),
+                "previous": x.tolist(), "what": "internal_state after the run is not the leaky integration of the pre-activations"}
     return None
 
 
